@@ -207,6 +207,15 @@ def conv_traces(fmt, xs, rng, label, isolate=True, apis=("np", "fix")):
     """float -> fixed: scalar, array element and deprecated word for every input, inputs ascending"""
     s, n, f = fmt
     nb = n - 1 if s else n
+    # one trace in four is made of single-precision inputs: the array converter is given a float32 array, the scalar
+    # conversions the same values (every float32 is a double); values beyond float32's range are left out
+    adt = np.float64
+    if (s, n) in DTYPES and "np" in apis and rng.random() < 0.25:
+        with np.errstate(over="ignore"):
+            xs32 = [float(np.float32(x)) for x in xs]
+        xs32 = sorted(set(x for x in xs32 if x == x and abs(x) != float("inf")))
+        if xs32:
+            xs, adt, label = xs32, np.float32, label + "/float32"
     xs = sorted(xs)
     fp = float_to_fp(bool(s), n, f)
     rfp = [call(fp, x) for x in xs]
@@ -215,16 +224,16 @@ def conv_traces(fmt, xs, rng, label, isolate=True, apis=("np", "fix")):
     if not has_np:
         apis = tuple(a for a in apis if a != "np")
     conv = NumpyFloatToFixConverter(bool(s), n, f) if has_np else None
-    rnp = array_call(conv, laid_out(np.array(xs, dtype=np.float64).reshape(shape), rng))[0] if has_np else None
+    rnp = array_call(conv, laid_out(np.array(xs, dtype=adt).reshape(shape), rng))[0] if has_np else None
     fx = make_fix(fmt, float_to_fix)
     rfx = [call(fx, x) for x in xs] if fx else None
     X = [enc_dbl(x) for x in xs]
     # 0-d arrays and NumPy scalars for a few elements
     extra = {}
     for i in rng.sample(range(len(xs)), min(3, len(xs)) if has_np else 0):
-        r0, _ = array_call(conv, np.array(xs[i], dtype=np.float64))
+        r0, _ = array_call(conv, np.array(xs[i], dtype=adt))
         try:
-            r1 = ("v", int(conv(np.float64(xs[i]))))
+            r1 = ("v", int(conv(adt(xs[i]))))
         except Exception as ex:
             r1 = ("e", type(ex).__name__)
         extra[i] = [r0[0], r1]
@@ -447,7 +456,7 @@ def run(chk):
     chk.assumptions += [
         "the round trip is demanded for values whose magnitude spans at most 53 bits (the others have no double equal to "
         "them; for those only agreement of the variants and exactness of the conversion back are checked)",
-        "arrays are float64 (float32 input arrays are outside what is exercised)",
+        "arrays are float64, one trace in four float32 (the scalar converters get the same values as doubles)",
         "0 <= n_frac <= n_bits + 4 (and 25, 30, 40 for the 8/16-bit formats); n_bits in {8, 16, 32, 64} (the widths the array converter supports)",
     ]
     chk.sample(dict(traces[0], ev=traces[0]["ev"][:6] + [["..."]]))
